@@ -30,7 +30,8 @@ I0 == [present |-> FALSE, cfg |-> NoCfg,
        vc |-> {}, st |-> NoStop, halted |-> FALSE,
        burst |-> 0, burstT |-> -1,
        preSince |-> -1,
-       inflight |-> {}, lastEv |-> "", note |-> "", why |-> "", readyAt |-> -1, owes |-> FALSE, cut |-> FALSE, hung |-> {}, verifyAt |-> -1, nbo |-> 0, nrs |-> 0, rnds |-> {}, appCancel |-> FALSE, hpend |-> FALSE, lastReconn |-> -1, servedSince |-> 0, hadLid |-> FALSE, reconnAt |-> -1]
+       inflight |-> {}, lastEv |-> "", note |-> "", why |-> "", readyAt |-> -1, owes |-> FALSE, cut |-> FALSE, hung |-> {}, verifyAt |-> -1, nbo |-> 0, nrs |-> 0, rnds |-> {}, appCancel |-> FALSE, hpend |-> FALSE, lastReconn |-> -1, servedSince |-> 0, hadLid |-> FALSE, reconnAt |-> -1,
+       preStart |-> [started |-> FALSE, stopped |-> FALSE, halted |-> FALSE, lastTo |-> "", ready |-> FALSE, graceDue |-> -1, appCancel |-> FALSE]]
 
 O0 == [scn |-> "", ended |-> TRUE, H |-> 1000000, TTL |-> 3000000, L |-> 0, PT |-> 5000000,
        rec |-> [k \in Keys |-> NoRec], tokens |-> {}, pend |-> {},
@@ -179,7 +180,17 @@ H_reset(o, e) ==
 
 H_start_call(o, e) ==
   LET x == o.I[e.i] IN
-  R(SetI(o, e.i, [x EXCEPT !.started = TRUE, !.stopped = FALSE, !.halted = FALSE, !.lastTo = "CANDIDATE", !.ready = FALSE, !.graceDue = -1, !.appCancel = FALSE]), {})
+  R(SetI(o, e.i, [x EXCEPT !.started = TRUE, !.stopped = FALSE, !.halted = FALSE, !.lastTo = "CANDIDATE", !.ready = FALSE, !.graceDue = -1, !.appCancel = FALSE,
+                            !.preStart = [started |-> x.started, stopped |-> x.stopped, halted |-> x.halted, lastTo |-> x.lastTo, ready |-> x.ready,
+                                          graceDue |-> x.graceDue, appCancel |-> x.appCancel]]), {})
+
+\* a Start call that is refused (already started, connection monitor not restartable, ...) changes nothing: the instance is
+\* what it was before the call (in particular STOPPED after a stop)
+H_start_ret(o, e) ==
+  LET x == o.I[e.i] p == x.preStart IN
+  IF e.ok THEN R(o, {})
+  ELSE R(SetI(o, e.i, [x EXCEPT !.started = p.started, !.stopped = p.stopped, !.halted = p.halted, !.lastTo = p.lastTo, !.ready = p.ready,
+                                 !.graceDue = p.graceDue, !.appCancel = p.appCancel]), {})
 
 H_stop_call(o, e) ==
   LET x == o.I[e.i]
@@ -533,7 +544,9 @@ H_snap(o, e) ==
              THEN {V("C12", "not_demoted_at_configured_failure_count", i, e)} ELSE {}
       v19 == IF quiet /\ ~y.claim /\ y.ctxOpen # {} THEN {V("C19", "promotion_context_outlives_term", i, e)} ELSE {}
       \* first refresh attempt after the loss completed: must be demoted now (C03)
-      v03 == IF quiet /\ ~y.cut /\ y.lostAt >= 0 /\ y.lostHb > 0 /\ y.lostHb \notin {q.op : q \in o1.pend} /\ (y.claim \/ (y.cfg.cb /\ e.nd <= y.ndRise))
+      v03 == IF quiet /\ ~y.cut /\ y.lostAt >= 0 /\ y.lostHb > 0 /\ y.lostHb \notin {q.op : q \in o1.pend}
+                     /\ (\A q \in o1.pend : q.i = i => q.src # "hb")     \* (the attempt may end with a read of the record)
+                     /\ (y.claim \/ (y.cfg.cb /\ e.nd <= y.ndRise))
              THEN {V("C03", "not_demoted_at_completion_of_next_heartbeat:" \o y.lostCause \o Ctx(o1), i, e)} \cup
                   (IF y.lostOutside THEN {V("C13", "tampered_leader_not_demoted_at_completion_of_next_heartbeat:" \o y.lostCause, i, e)} ELSE {}) ELSE {}
       v03b == IF quiet /\ y.claim /\ y.failRun >= ToleratedFailures
@@ -564,7 +577,9 @@ Crash(o, e, what) ==
   LET ps == IF Blame(o) = {} THEN {"C09", "C13"} ELSE Blame(o) IN
   R([o EXCEPT !.ended = TRUE], {V(p, what, "env", e) : p \in ps})
 
-H_final(o, e) == IF e.leaked > 0 THEN Crash(o, e, "goroutines_alive_after_stop") ELSE R(o, {})
+H_final(o, e) == IF e.leaked > 0 THEN Crash(o, e, "goroutines_alive_after_stop")
+                 ELSE IF e.wopen > 0 THEN R([o EXCEPT !.ended = TRUE], {V("C09", "watcher_not_stopped_after_stop", "env", e)})
+                 ELSE R(o, {})
 
 Handle(o, e) ==
   LET ev == e.ev IN
@@ -587,6 +602,7 @@ Handle(o, e) ==
   ELSE IF ev = "health" THEN H_health(o, e)
   ELSE IF ev = "note" THEN H_note(o, e)
   ELSE IF ev = "start_call" THEN H_start_call(o, e)
+  ELSE IF ev = "start_ret" THEN H_start_ret(o, e)
   ELSE IF ev = "stop_call" THEN H_stop_call(o, e)
   ELSE IF ev = "stop_ret" THEN H_stop_ret(o, e)
   ELSE IF ev = "val_call" THEN H_val_call(o, e)
